@@ -270,7 +270,7 @@ def case_init(tag, pad=3, funcs=0):
     ln = m.line
     m.text("mixed g_ = 10 / z_;\nint go() { return 1; }\n")
     p, o = "%s/m.c" % d.lstrip("/"), "%s/m" % d
-    exp = "expect kind=init file=%s lines=%d-%d program=%s object=%s trace=#global_init#@%s@%s@%s@%d-%d" % (
+    exp = "expect kind=plain phase=load file=%s lines=%d-%d program=%s object=%s trace=#global_init#@%s@%s@%s@%d-%d" % (
         p, ln, ln, p, o, p, o, p, ln, ln)
     return [m.cmd(), "load o1 %s/m" % d, exp]
 
@@ -302,7 +302,7 @@ class C18(Prop):
                 "NV.C18.runEms_li", "NV.C18.translateAbs_at"]
     witness_theorems = ["NV.C18.file_roundtrip_Full_false", "NV.C18.line_roundtrip_Full_false",
                         "NV.C18.reinclude_wrong", "NV.C18.wide_wrong", "NV.C18.signed_short_wrong",
-                        "NV.C18.init_block_ignored", "NV.C18.init_replay"]
+                        "NV.C18.init_block_only_noted", "NV.C18.init_replay"]
     consts = [("aProgram", "A_PROGRAM"), ("aInitializer", "A_INITIALIZER"),
               ("frameFunction", "FRAME_FUNCTION"), ("frameFunp", "FRAME_FUNP"), ("frameCatch", "FRAME_CATCH"),
               ("frameFake", "FRAME_FAKE"), ("frameMask", "FRAME_MASK"),
